@@ -289,58 +289,72 @@ def element_order_part(ctx):
 
 # ------------------------------------------------------------------ C12 ordered scans
 def gibbs_scans(tier):
-    """interfacial composition over ascending g; dG at the returned matrix composition equals g (within the 1 J/mol offset)"""
-    t = therm("alzr")
+    """interfacial composition over ascending g; dG at the returned matrix composition equals g (within the 1 J/mol offset), with
+    the tangent and the sampling method, caches discarded after every call and caches kept on one long-lived object while the
+    temperature changes from scan to scan (up and back down)"""
     out = []
-    Ts = [673.15, 723.15] + ([773.15] if tier == "thorough" else [])
     ng = 16 if tier == "quick" else 40
-    for T in Ts:
-        gs = np.linspace(0.0, 60000.0, ng)
-        ev = [{"e": "init"}]
-        try:
-            xa, xb = t.getInterfacialComposition(T, gs.copy())
-            prev = None
-            for g, a in zip(gs, xa):
-                sent = bool(a == -1)
-                e = {"e": "g", "g": float(g), "sentinel": sent, "vsprev": "eq", "dgvsg": "eq"}
-                if not sent:
-                    if prev is not None:
-                        e["vsprev"] = cmp3(float(a), prev, rtol=1e-9)
-                    dg, _ = t.getDrivingForce(float(a), T, removeCache=True)
-                    # documented offset: 1 J/mol added to the precipitate when the boundary is computed
-                    e["dgvsg"] = "eq" if abs(float(dg) - float(g)) <= 1.0 + 2e-3 * abs(float(g)) + 2.0 else ("gt" if float(dg) > float(g) else "lt")
-                    prev = float(a)
-                ev.append(e)
-        except Exception as ex:  # noqa
-            ev.append({"e": "exception", "msg": "%s: %s" % (type(ex).__name__, str(ex)[:200])})
-        out.append(("gibbs-thomson scan T=%g" % T, ev))
+    for method, remove, Ts in (("tangent", True, [673.15, 723.15] + ([773.15] if tier == "thorough" else [])),
+                               ("tangent", False, [673.15, 773.15, 673.15]), ("sampling", False, [673.15, 773.15, 673.15]),
+                               ("sampling", True, [723.15])):
+        t = therm("alzr", method)
+        t.clearCache()
+        for k, T in enumerate(Ts):
+            gs = np.linspace(0.0, 60000.0, ng if remove or tier != "quick" else 8)
+            ev = [{"e": "init"}]
+            try:
+                xa, xb = t.getInterfacialComposition(T, gs.copy())
+                prev = None
+                for g, a in zip(gs, xa):
+                    sent = bool(a == -1)
+                    e = {"e": "g", "g": float(g), "sentinel": sent, "vsprev": "eq", "dgvsg": "eq"}
+                    if not sent:
+                        if prev is not None:
+                            e["vsprev"] = cmp3(float(a), prev, rtol=1e-9)
+                        dg, _ = t.getDrivingForce(float(a), T, removeCache=remove)
+                        # documented offset: 1 J/mol added to the precipitate when the boundary is computed
+                        e["dgvsg"] = "eq" if abs(float(dg) - float(g)) <= 1.0 + 2e-3 * abs(float(g)) + 2.0 else ("gt" if float(dg) > float(g) else "lt")
+                        prev = float(a)
+                    ev.append(e)
+            except Exception as ex:  # noqa
+                ev.append({"e": "exception", "msg": "%s: %s" % (type(ex).__name__, str(ex)[:200])})
+            out.append(("gibbs-thomson scan #%d T=%g (%s, caches %s)" % (k, T, method, "discarded" if remove else "kept"), ev))
+        t.clearCache()
     return out
 
 
 def supersaturation_scans(tier):
+    """driving force over ascending supersaturation, four methods side by side; once with the equilibrium caches discarded after every
+    call and once with the caches KEPT (the default, and what the precipitation model does) while the temperature changes between
+    scans on the same long-lived objects, in both temperature orders"""
     out = []
     methods = ["tangent", "sampling", "approximate", "curvature"]
     ts = {m: therm("alzr", m) for m in methods}
-    Ts = [673.15, 723.15]
-    for T in Ts:
-        xe, _ = ts["tangent"].getInterfacialComposition(T, 0)
-        xs = np.concatenate([np.linspace(0.2, 0.9, 4) * xe, np.linspace(1.1, 6.0, 8 if tier == "quick" else 20) * xe])
-        ev = [{"e": "init"}]
-        prev = None
-        try:
-            for x in xs:
-                dgs = {}
-                for m in methods:
-                    dg, _ = ts[m].getDrivingForce(float(x), T, removeCache=True)
-                    dgs[m] = float(dg)
-                ref = dgs["tangent"]
-                far = abs(x / xe - 1) > 0.05
-                agree = (not far) or len({np.sign(v) for v in dgs.values()}) == 1
-                e = {"e": "x", "x": float(x), "side": "above" if x > xe * 1.02 else ("below" if x < xe * 0.98 else "at"),
-                     "sign": int(np.sign(ref)), "vsprev": "eq" if prev is None else cmp3(ref, prev, rtol=1e-9, atol=1e-6), "methodsagree": bool(agree)}
-                prev = ref
-                ev.append(e)
-        except Exception as ex:  # noqa
-            ev.append({"e": "exception", "msg": "%s: %s" % (type(ex).__name__, str(ex)[:200])})
-        out.append(("supersaturation scan T=%g" % T, ev))
+    for label, Ts, remove in (("caches discarded", [673.15, 723.15], True), ("caches kept, heating", [673.15, 773.15], False),
+                              ("caches kept, cooling", [773.15, 673.15], False)):
+        for t in ts.values():
+            t.clearCache()
+        for T in Ts:
+            xe, _ = therm("alzr", "tangent").getInterfacialComposition(T, 0)
+            xs = np.concatenate([np.linspace(0.2, 0.9, 4) * xe, np.linspace(1.1, 6.0, 8 if tier == "quick" else 20) * xe])
+            ev = [{"e": "init"}]
+            prev = None
+            try:
+                for x in xs:
+                    dgs = {}
+                    for m in methods:
+                        dg, _ = ts[m].getDrivingForce(float(x), T, removeCache=remove)
+                        dgs[m] = float(dg)
+                    ref = dgs["tangent"]
+                    far = abs(x / xe - 1) > 0.05
+                    agree = (not far) or len({np.sign(v) for v in dgs.values()}) == 1
+                    e = {"e": "x", "x": float(x), "side": "above" if x > xe * 1.02 else ("below" if x < xe * 0.98 else "at"),
+                         "sign": int(np.sign(ref)), "vsprev": "eq" if prev is None else cmp3(ref, prev, rtol=1e-9, atol=1e-6), "methodsagree": bool(agree)}
+                    prev = ref
+                    ev.append(e)
+            except Exception as ex:  # noqa
+                ev.append({"e": "exception", "msg": "%s: %s" % (type(ex).__name__, str(ex)[:200])})
+            out.append(("supersaturation scan T=%g (%s)" % (T, label), ev))
+    for t in ts.values():
+        t.clearCache()
     return out
